@@ -71,7 +71,7 @@ def gen_plain_line(rng, opts):
             v = rng.getrandbits(32)
             toks.append([L.v4_text(rng, v, "canon")[0] + rng.choice(["", "", "/24", ","]), "v4"])
         elif r < 0.68:
-            toks.append([L.v4_text(rng, rng.choice(ipgen.MASKS), "canon")[0], "mask"])
+            toks.append([L.v4_text(rng, rng.choice(ipgen.MASKS), rng.choice(["canon", "canon", "zeros", "zeros1"]))[0], "mask"])
         elif r < 0.76:
             v = rng.getrandbits(128) >> rng.choice([0, 64, 96])
             toks.append([L.v6_text(rng, v)[0] + rng.choice(["", "/64"]), "v6"])
@@ -128,6 +128,9 @@ def gen_text(rng, opts, nlines, eols=("\n",), final_newline=True, secrets=True):
             ln = gen_secret_line(rng, opts, state)
         else:
             ln = gen_plain_line(rng, opts)
+        if out and rng.random() < 0.12:
+            # the same line body again, possibly with another terminator
+            ln = dict(rng.choice(out))
         ln["eol"] = rng.choice(eols)
         out.append(ln)
     if out and not final_newline:
